@@ -23,25 +23,26 @@ ISMFields(cfg) == {"ps_c", "ps_e", "A", "e", "v"} \cup (IF cfg.blind THEN {"shar
                      \cup (IF cfg.wit THEN {"w_u", "w_e", "w_sacc", "witness"} ELSE {})     \* "witness": the witness as a whole
 Kinds == {"alter", "other", "nil"}
 
-VARIABLES cfg, phase, icm, sess, ism, outcome, fault
-vars == <<cfg, phase, icm, sess, ism, outcome, fault>>
+CONSTANT MaxFaults        \* number of faults the network may inject (1: every single fault; 2: every pair)
+VARIABLES cfg, phase, icm, sess, ism, outcome, faults
+vars == <<cfg, phase, icm, sess, ism, outcome, faults>>
 Orig(F) == [x \in F |-> "orig"]
-NoFault == [msg |-> "none", field |-> "", kind |-> ""]
 
 Init == /\ cfg \in [blind : BOOLEAN, wit : BOOLEAN, ks : BOOLEAN]
         /\ phase = "commit" /\ icm = <<>> /\ sess = <<>> /\ ism = <<>>
-        /\ outcome = "none" /\ fault = NoFault
+        /\ outcome = "none" /\ faults = <<>>
 Commit == /\ phase = "commit" /\ icm' = Orig(ICMFields(cfg)) /\ sess' = Orig(SessFields)
-          /\ phase' = "net1" /\ UNCHANGED <<cfg, ism, outcome, fault>>
-Tamper1 == /\ phase = "net1" /\ fault = NoFault
+          /\ phase' = "net1" /\ UNCHANGED <<cfg, ism, outcome, faults>>
+Fresh(m, fld) == \A i \in 1..Len(faults) : ~(faults[i].msg = m /\ (faults[i].field = fld \/ faults[i].field = "*"))
+Tamper1 == /\ phase = "net1" /\ Len(faults) < MaxFaults
            /\ \/ \E fld \in ICMFields(cfg) \cup SessFields, k \in Kinds :
                    /\ ~(fld = "ctx" /\ k = "other")            \* both runs use the same context
-                   /\ ~(fld \in SessFields /\ k = "nil")
+                   /\ ~(fld \in SessFields /\ k = "nil") /\ Fresh("icm", fld)
                    /\ IF fld \in SessFields THEN sess' = [sess EXCEPT ![fld] = k] /\ UNCHANGED icm
                                              ELSE icm' = [icm EXCEPT ![fld] = k] /\ UNCHANGED sess
-                   /\ fault' = [msg |-> "icm", field |-> fld, kind |-> k]
-              \/ /\ icm' = [x \in ICMFields(cfg) |-> "other"] /\ UNCHANGED sess       \* whole message replayed from the other run
-                 /\ fault' = [msg |-> "icm", field |-> "*", kind |-> "other"]
+                   /\ faults' = Append(faults, [msg |-> "icm", field |-> fld, kind |-> k])
+              \/ /\ faults = <<>> /\ icm' = [x \in ICMFields(cfg) |-> "other"] /\ UNCHANGED sess       \* whole message replayed from the other run
+                 /\ faults' = <<[msg |-> "icm", field |-> "*", kind |-> "other"]>>
            /\ UNCHANGED <<cfg, phase, ism, outcome>>
 Intact(m, F) == \A x \in F : m[x] = "orig"
 \* the issuer verifies the commitment proof for its own (context, nonce1) and signs with the nonce2 it received
@@ -49,25 +50,27 @@ Issue == /\ phase = "net1"
          /\ IF Intact(icm, ICMFields(cfg) \ {"nonce2"}) /\ Intact(sess, SessFields) /\ icm["nonce2"] # "nil"
               THEN /\ ism' = Orig(ISMFields(cfg)) /\ phase' = "net2" /\ UNCHANGED outcome
               ELSE /\ outcome' = "issuer-reject" /\ phase' = "end" /\ UNCHANGED ism
-         /\ UNCHANGED <<cfg, icm, sess, fault>>
-Tamper2 == /\ phase = "net2" /\ fault = NoFault
+         /\ UNCHANGED <<cfg, icm, sess, faults>>
+Tamper2 == /\ phase = "net2" /\ Len(faults) < MaxFaults
            /\ \/ \E fld \in ISMFields(cfg), k \in Kinds :
-                   /\ (fld = "witness" => k # "alter")
-                   /\ ism' = [ism EXCEPT ![fld] = k] /\ fault' = [msg |-> "ism", field |-> fld, kind |-> k]
-              \/ /\ ism' = [x \in ISMFields(cfg) |-> "other"] /\ fault' = [msg |-> "ism", field |-> "*", kind |-> "other"]
+                   /\ (fld = "witness" => k # "alter") /\ Fresh("ism", fld)
+                   /\ (fld \in {"w_u", "w_e", "w_sacc"} => Fresh("ism", "witness")) /\ (fld = "witness" => Fresh("ism", "w_u") /\ Fresh("ism", "w_e") /\ Fresh("ism", "w_sacc"))
+                   /\ ism' = [ism EXCEPT ![fld] = k] /\ faults' = Append(faults, [msg |-> "ism", field |-> fld, kind |-> k])
+              \/ /\ Fresh("ism", "*") /\ (\A i \in 1..Len(faults) : faults[i].msg # "ism")
+                 /\ ism' = [x \in ISMFields(cfg) |-> "other"] /\ faults' = Append(faults, [msg |-> "ism", field |-> "*", kind |-> "other"])
            /\ UNCHANGED <<cfg, phase, icm, sess, outcome>>
 \* fields whose absence the recipient tolerates by design: a dropped witness yields a credential without witness
 Tolerated == {"witness"}
 Construct == /\ phase = "net2"
-             /\ outcome' = IF (\A x \in ISMFields(cfg) : ism[x] = "orig" \/ (x \in Tolerated /\ fault.kind = "nil" /\ fault.field = x))
+             /\ outcome' = IF (\A x \in ISMFields(cfg) : ism[x] = "orig" \/ (x \in Tolerated /\ ism[x] = "nil"))
                               /\ icm["nonce2"] = "orig"
-                           THEN (IF fault.msg = "ism" THEN "cred-without-witness" ELSE "cred") ELSE "user-reject"
-             /\ phase' = "end" /\ UNCHANGED <<cfg, icm, sess, ism, fault>>
+                           THEN (IF \E x \in ISMFields(cfg) : ism[x] # "orig" THEN "cred-without-witness" ELSE "cred") ELSE "user-reject"
+             /\ phase' = "end" /\ UNCHANGED <<cfg, icm, sess, ism, faults>>
 Next == Commit \/ Tamper1 \/ Issue \/ Tamper2 \/ Construct
 Spec == Init /\ [][Next]_vars
 
 \* C06
-Integrity == outcome = "cred" => fault = NoFault
-Complete == (phase = "end" /\ fault = NoFault) => outcome = "cred"
+Integrity == outcome = "cred" => faults = <<>>
+Complete == (phase = "end" /\ faults = <<>>) => outcome = "cred"
 RejectIsError == outcome \in {"none", "cred", "cred-without-witness", "issuer-reject", "user-reject"}     \* never "panic"
 =============================================================================
